@@ -86,22 +86,6 @@ impl Step {
             other => vcore::machinery_exit(&format!("bad step {other}")),
         }
     }
-    /// Abstract kind (no latency) for scene keys.
-    pub fn kind(self) -> &'static str {
-        match self {
-            Step::Answer(_) => "answer",
-            Step::NxDomain(_) => "nxdomain",
-            Step::NoData(_) => "nodata",
-            Step::Truncated(_) => "truncated",
-            Step::Silent => "silent",
-            Step::IoErr(_) => "ioerr",
-            Step::Reset(_) => "reset",
-            Step::Busy(_) => "busy",
-            Step::ServFail(_) => "servfail",
-            Step::Refused(_) => "refused",
-            Step::CaseMismatch(_) => "casemismatch",
-        }
-    }
 }
 
 /// Reaction of a TCP endpoint to a connection attempt.
